@@ -40,6 +40,17 @@ func vkConcMsgs() []vkConcMsg {
 			return m
 		}},
 		{"too-big(declined)", func() *dns.Msg { return vkSized(5000, true, false, 0) }},
+		// declined AFTER the pack state was taken from the pool: a record the decoder accepts and the packer refuses
+		// (an SVCB alpn list holding an empty alpn-id) — whatever the decline path does with the state, it must
+		// reach the pool exactly once
+		{"unpackable-svcb(declined late)", func() *dns.Msg {
+			m := new(dns.Msg)
+			m.Id, m.Response, m.Compress = 9, true, true
+			m.Question = []dns.Question{vkQ("svc.example.org.", dns.TypeSVCB)}
+			m.Answer = []dns.RR{&dns.SVCB{Hdr: dns.RR_Header{Name: "svc.example.org.", Rrtype: dns.TypeSVCB, Class: dns.ClassINET, Ttl: 60}, Priority: 1, Target: "t.example.org.",
+				Value: []dns.SVCBKeyValue{&dns.SVCBAlpn{Alpn: []string{""}}}}}
+			return m
+		}},
 	}
 }
 
